@@ -4,7 +4,9 @@
 //! is `pub(crate)` and test-only), builds one combinator over it as named by the JSON case,
 //! polls it until it reports the end plus a few extra polls and records, for every poll, the
 //! `size_hint` before the poll and the exact `PullStep`.
+use std::cell::Cell;
 use std::collections::VecDeque;
+use std::rc::Rc;
 use std::pin::Pin;
 use std::task::Waker;
 
@@ -12,6 +14,7 @@ use dfir_pipes::pull::{FusedPull, Pull, PullStep};
 use dfir_pipes::{EitherOrBoth, Yes};
 use hvcommon::{Value, json};
 
+mod extra;
 mod join;
 
 // ------------------------------------------------------------------------------------------
@@ -29,15 +32,18 @@ pub enum Step<T> {
 /// after reporting the end. `size_hint` = (rem.saturating_sub(lo), hi.and_then(|k| rem.checked_add(k))) where `rem` is the number
 /// of items before the first end.
 pub struct Src<T> {
-    steps: VecDeque<Step<T>>,
-    lo: usize,
-    hi: Option<usize>,
+    pub steps: VecDeque<Step<T>>,
+    pub lo: usize,
+    pub hi: Option<usize>,
+    ended: bool,
+    /// number of polls made after this source first reported the end
+    pub after_end: Rc<Cell<usize>>,
 }
 
 impl<T> Unpin for Src<T> {}
 
 impl<T> Src<T> {
-    fn rem(&self) -> usize {
+    pub fn rem(&self) -> usize {
         let mut n = 0;
         for s in &self.steps {
             match s {
@@ -70,8 +76,15 @@ impl<T> Pull for Src<T> {
     type CanEnd = Yes;
 
     fn pull(self: Pin<&mut Self>, _ctx: &mut Self::Ctx<'_>) -> PullStep<T, (), Yes, Yes> {
-        match self.get_mut().steps.pop_front() {
-            None | Some(Step::End) => PullStep::Ended(Yes),
+        let this = self.get_mut();
+        if this.ended {
+            this.after_end.set(this.after_end.get() + 1);
+        }
+        match this.steps.pop_front() {
+            None | Some(Step::End) => {
+                this.ended = true;
+                PullStep::Ended(Yes)
+            }
             Some(Step::Pend) => PullStep::Pending(Yes),
             Some(Step::Rdy(a)) => PullStep::Ready(a, ()),
         }
@@ -127,6 +140,8 @@ pub fn parse_src<T>(v: &Value, item: fn(&Value) -> T) -> Src<T> {
         steps,
         lo: v["lo"].as_u64().unwrap_or(0) as usize,
         hi: v["hi"].as_u64().map(|x| x as usize),
+        ended: false,
+        after_end: Rc::new(Cell::new(0)),
     }
 }
 
@@ -134,7 +149,7 @@ pub fn num(x: &Value) -> u64 {
     x.as_u64().expect("number")
 }
 
-fn nums(x: &Value) -> Vec<u64> {
+pub fn nums(x: &Value) -> Vec<u64> {
     x.as_array().expect("list item").iter().map(num).collect()
 }
 
@@ -298,6 +313,7 @@ fn run(case: &Value) -> Value {
     match case["k"].as_str().unwrap_or("") {
         "c11" => run_c11(case),
         "c13" => join::run_c13(case),
+        "c11x" => extra::run_x(case),
         o => json!({ "bad_case": format!("unknown kind {o}") }),
     }
 }
